@@ -55,6 +55,12 @@ Definition obs_arith (args : list str) : str :=
      "H gf af name .."  every exported sender with the allowance used, GlobalFormat gf,
                         AllowFlood af: per name 'H' (rated and held), 'U' (not rated),
                         '?' (not an entry point of the model)
+     "I npong nsend"    allowance used, npong unsolicited PONGs (and PINGs) from the server,
+                        then nsend Sends: per Send 'H' (held) / 'U'
+   rate.inbound args: allowFlood, primed writeDelay, an inbound history.  Handlers of inbound
+               traffic only ever Send or write: whatever the history, with AllowFlood the
+               limiter state is untouched ("wd=same lr=same"), without it writeDelay never
+               drops (no time passes in the model) and lastRate only moves forward
    rate.entry  args: name of an exported sender -> "send" / "write" / "absent" (the model's table) *)
 Fixpoint split_sp (s : str) (cur : str) : list str :=
   match s with
@@ -160,6 +166,35 @@ Definition obs_entry (args : list str) : str :=
   | None => bs "absent"
   end.
 
+(* the handlers' footprint: a PONG touches nothing, a PING is answered through write *)
+Definition inbound_actions (pongs : nat) : list action :=
+  concat (map (fun i => pong_actions (mkE 8 (N.of_nat i) 20)) (seq 0 pongs)).
+
+Definition obs_inbound_wire (args : list Z) : str :=
+  let npong := Z.to_nat (nth 0 args 0) in
+  let nsend := Z.to_nat (nth 1 args 0) in
+  let sends := concat (map (fun i => entry_actions false false ViaSend 0 (mkE 0 (N.of_nat i) 18)) (seq 0 nsend)) in
+  let '(s1, _) := exec (sys0 (mkR (20 * second) 0 0)) (inbound_actions npong) in
+  let '(_, ds) := exec s1 sends in
+  bs "I=" ++ map (fun d => if d =? cost 18 then 72%N else 85%N) ds.
+
+(* rate.inbound: every event's handlers contribute at most Sends and writes; the model runs
+   the largest such fragment per event (a Send, a write, a Send) with no time passing *)
+Definition obs_inbound (args : list str) : str :=
+  let allow := streqb (nth 0 args []) (bs "1") in
+  let w := zarg 1 args in
+  let n := length args in
+  let e := mkE 7 0 20 in
+  let frag := entry_actions false allow ViaSend 0 e ++ [AEnq e] ++ entry_actions false allow ViaSend 0 e in
+  let s0 := sys0 (mkR w 0 0) in
+  let s1 := fst (exec s0 (concat (repeat frag n))) in
+  if allow then
+    bs "wd=" ++ (if wd (rs s1) =? w then bs "same" else bs "CHANGED") ++
+    bs " lr=" ++ (if lastr (rs s1) =? 0 then bs "same" else bs "CHANGED") ++ bs " lw=mono"
+  else
+    bs "wd=" ++ (if w <=? wd (rs s1) then bs "kept" else bs "LOWERED") ++
+    bs " lr=" ++ (if 0 <=? lastr (rs s1) then bs "mono" else bs "BACK") ++ bs " lw=mono".
+
 Definition obs_scenario (s : str) : str :=
   match s with
   | 83%N :: 32%N :: r => obs_sync (nums r)
@@ -168,6 +203,7 @@ Definition obs_scenario (s : str) : str :=
   | 80%N :: 32%N :: r => obs_keepalive
   | 88%N :: 32%N :: r => obs_split (nums r)
   | 72%N :: 32%N :: r => obs_helpers (split_sp r [])
+  | 73%N :: 32%N :: r => obs_inbound_wire (nums r)
   | _ => bs "?scenario"
   end.
 
@@ -178,6 +214,7 @@ Definition checksum (args : list str) : N := fold_left (fun a s => fold_left N.a
 Definition run_C16 (suite : str) (args : list str) : option str :=
   if streqb suite (bs "rate.arith") then Some (obs_arith args)
   else if streqb suite (bs "rate.entry") then Some (obs_entry args)
+  else if streqb suite (bs "rate.inbound") then Some (obs_inbound args)
   else if streqb suite (bs "rate.wire") then
     Some (match rev args with
           | ck :: rest =>
